@@ -9,7 +9,7 @@ def _c15_world(kind, harness, nd, r, hosts=None, tier="quick", insts=None):
     return spec("C15/%s/dests=%d/replicas=%d%s%s" % (kind, nd, r, "/hosts=" + hosts if hosts else "", "/insts=" + insts if insts else ""), harness, p, tier=tier)
 
 PROPS["C15"] = {
-    "bounds": ("ring position: keys of 0..4 symbolic bytes, arbitrary digest; replica key text: host 1..2 (thorough 1..3) and instance 0..2 symbolic bytes out of [.0-9a-z], with and without port, 1..2 (thorough 1..3) replicas, "
+    "bounds": ("ring position: keys of 0..4 symbolic bytes, arbitrary digest; replica key text: host 1..2 (thorough 1..3) and instance 0..2 symbolic bytes out of [.0-9A-Za-z], with and without port, 1..2 (thorough 1..3) replicas, "
                "two destinations with free host (1..2 bytes) and instance (0..1 bytes) texts, distinct as pairs (also when equal once concatenated), 1 replica (thorough 2); plus the production constructor (100 replicas) on two concrete destinations; lookup: every sorted ring of 1..6 entries (thorough 1..9) with free positions x every key position; "
                "order independence: 2 destinations x 1..2 replicas and 3 destinations x 1 replica, distinct or shared host names (shared host with 2 replicas and 3 destinations with two or all three on one host: thorough), instance absent or one free byte, all ring positions free including ties, "
                "every non-identity listing order; minimal disruption: 1..2 destinations + 1 added with 1 replica, 1 + 1 with 2 replicas (thorough 2 + 1 with 2 replicas and no instances, 1 + 1 with 2 replicas on one host, 3 + 1 with 1), then removal of any one destination, free positions, every key position; "
